@@ -15,11 +15,11 @@ func init() { register("C17", checkC17, replayRouting(replayC17)) }
 var c17Methods = []string{"GET", "POST", "PUT", "OPTIONS", "DELETE"} // route methods GET/POST/PUT + OPTIONS + one foreign method
 
 func c17Sweeps(tier string) []sweep {
-	u := rs.Universe{Tokens: []string{"a", "b", "{x}", "{y}"}, Roots: []string{"/", "/a", "/a/b", "/é d"}, MaxSub: 2,
+	u := rs.Universe{Tokens: []string{"a", "b", "{x}", "{y}"}, Roots: []string{"/", "/a", "/a/b", "/é d", "/a/"}, MaxSub: 2,
 		Segs: []string{"a", "b", "é d"}, MaxPath: 3, RMethods: []string{"GET", "POST", "PUT"}}
 	if tier == "thorough" {
 		u.Tokens = []string{"a", "b", "{x}", "{y}"}
-		u.Roots = []string{"/", "/a", "/a/b", "/b", "/a/b/c"}
+		u.Roots = []string{"/", "/a", "/a/b", "/b", "/a/b/c", "/a/"}
 		u.MaxPath = 4
 	}
 	// one path per segment string (no trailing-slash twins: C14 owns that), grouped by URL
